@@ -181,18 +181,13 @@ func (s *SchemaValidator) Validate(data interface{}) *Result {
 
 	// TODO: this part should be handed over to type validator
 	// Handle special case of json.Number data (number marshalled as string)
-	isnumber := s.Schema.Type.Contains(numberType) || s.Schema.Type.Contains(integerType)
-	if num, ok := data.(json.Number); ok && isnumber {
-		if s.Schema.Type.Contains(integerType) { // avoid lossy conversion
-			in, erri := num.Int64()
-			if erri != nil {
-				result.AddErrors(invalidTypeConversionMsg(s.Path, erri))
-				result.Inc()
-
-				return result
-			}
+	if num, ok := data.(json.Number); ok {
+		// a json.Number is a JSON number, whatever type the schema declares (if any)
+		in, erri := num.Int64()
+		if erri == nil && s.Schema.Type.Contains(integerType) { // avoid lossy conversion
 			d = in
 		} else {
+			// not an int64 literal (e.g. 2.0, 2e0, 2.5): the type validator decides about integers
 			nf, errf := num.Float64()
 			if errf != nil {
 				result.AddErrors(invalidTypeConversionMsg(s.Path, errf))
